@@ -125,8 +125,7 @@ theorem c11_first_acceptable (mine : Proposal) (ps : List Proposal) :
       · exact hi
       · exact hpre x hx
 
-/-- an initiator accepts a response proposal only if every transform of it was in its own
-    offer (IKE_SA: `is_subset`; CHILD_SA: intersection equal to the response) -/
+/-- `Proposal.is_subset`: true only if every transform of the first proposal is in the second -/
 theorem c11_response_drawn_from_offer (resp offer : Proposal) (h : isSubset resp offer = true) :
     resp.proto = offer.proto ∧ ∀ t ∈ resp.transforms, t ∈ offer.transforms := by
   unfold isSubset at h
@@ -154,6 +153,31 @@ theorem c11_child_response_drawn_from_offer (mine chosen : Proposal) (h : childR
     simp only [propEq, Bool.and_eq_true, decide_eq_true_eq, List.all_eq_true] at h
     have := h.2.2 t ht
     exact (hw.2.2.2.2 t (by simpa using this)).1
+
+/-- … and the accepted response has a transform of every type that was offered: the initiator never ends up with a
+    suite that lacks a type its policy requires (IKE_SA and CHILD_SA responses are validated by the same test) -/
+theorem c11_response_covers_offered_types (mine chosen : Proposal) (h : childResponseOk mine chosen = true) :
+    ∀ t ∈ mine.transforms, ∃ u ∈ chosen.transforms, u.ttype = t.ttype := by
+  unfold childResponseOk at h
+  cases hi : intersection mine chosen with
+  | none => rw [hi] at h; cases h
+  | some i =>
+    rw [hi] at h
+    intro t ht
+    -- the intersection has a transform of t's type …
+    have hc : coversTypes i.transforms mine.transforms = true := by
+      unfold intersection at hi
+      split at hi
+      · split at hi
+        · rename_i hcov; cases hi; exact hcov
+        · cases hi
+      · cases hi
+    simp only [coversTypes, List.all_eq_true, List.any_eq_true, decide_eq_true_eq] at hc
+    obtain ⟨u, hu, hty⟩ := hc t ht
+    -- … and every transform of the intersection is one of the response
+    simp only [propEq, Bool.and_eq_true, decide_eq_true_eq, List.all_eq_true] at h
+    have := h.2.1 u hu
+    exact ⟨u, by simpa using this, hty⟩
 
 /-- a KE payload in a group other than the chosen one is refused, and the refusal names the
     chosen group -/
